@@ -33,6 +33,7 @@ type Opts struct {
 	AllBytes bool   // B1: all 255 other values instead of the 6 interesting ones
 	SmallMax int    // S: maximal length
 	Depth    int    // B3/F1: how many message levels are entered (default 4)
+	RepMax   int    // F1: a field is repeated 1024 / 65536 times only while the repetition stays below RepMax bytes (default 1 MiB)
 }
 
 // Has reports whether kind k is selected.
@@ -55,6 +56,9 @@ type Yield func(kind, label string, data []byte) bool
 func Enumerate(seed []byte, o Opts, yield Yield) bool {
 	if o.Depth == 0 {
 		o.Depth = 4
+	}
+	if o.RepMax == 0 {
+		o.RepMax = 1 << 20
 	}
 	stop := false
 	y := func(kind, label string, data []byte) bool {
@@ -84,7 +88,7 @@ func Enumerate(seed []byte, o Opts, yield Yield) bool {
 			b3(seed, root, y)
 		}
 		if o.Has("F1") && !stop {
-			f1(root, y)
+			f1(root, o.RepMax, y)
 		}
 	}
 	return !stop
@@ -379,7 +383,7 @@ func field(num protowire.Number, typ protowire.Type, payload []byte) []byte {
 	return append(protowire.AppendTag(nil, num, typ), payload...)
 }
 
-func f1(root *node, y Yield) {
+func f1(root *node, repMax int, y Yield) {
 	walk(root, func(n *node) bool {
 		emit := func(op string, repl []byte) bool {
 			return y("F1", "F1:"+n.path+":"+op, rebuild(n, repl))
@@ -391,7 +395,7 @@ func f1(root *node, y Yield) {
 			return false
 		}
 		for _, times := range []int{1024, 65536} {
-			if len(n.raw)*times <= 1<<20 {
+			if len(n.raw)*times <= repMax {
 				rep := make([]byte, 0, len(n.raw)*times)
 				for i := 0; i < times; i++ {
 					rep = append(rep, n.raw...)
